@@ -204,7 +204,8 @@ func (in *instance) argFor(op, tok string, m flat) (any, error) {
 	case "mapcoll":
 		if in.ckind == "anycoll" {
 			switch tok {
-			case "collide":
+			case "collide", "typed_collide":
+				// (the any schema keeps string keys apart: its colliding keys are integers of different widths)
 				return map[any]any{int(1): "x", int64(1): "y"}, nil
 			case "single":
 				return map[any]any{int64(1): "x"}, nil
@@ -212,13 +213,28 @@ func (in *instance) argFor(op, tok string, m flat) (any, error) {
 				return struct{ X int }{1}, nil
 			}
 		}
-		switch tok {
-		case "collide":
-			return map[any]any{int64(1): "x", "1": "y"}, nil
-		case "single":
-			return map[any]any{int64(1): "x"}, nil
-		case "bad":
+		if tok == "bad" {
 			return "not a map", nil
+		}
+		switch in.ckind + "/" + tok {
+		case "mapcoll/collide":
+			return map[any]any{int64(1): "x", "1": "y"}, nil
+		case "mapcoll/single":
+			return map[any]any{int64(1): "x"}, nil
+		case "mapcoll/typed_collide":
+			return map[string]any{"7": "x", "07": "y"}, nil // one Go key type, two texts of one integer
+		case "mapcoll_units/collide":
+			return map[any]any{int64(60): "x", "1m": "y"}, nil
+		case "mapcoll_units/single":
+			return map[any]any{"1m": "x"}, nil
+		case "mapcoll_units/typed_collide":
+			return map[string]any{"1m": "x", "60s": "y"}, nil
+		case "mapcoll_strkey/collide":
+			return map[any]any{"1": "x", int64(1): "y"}, nil
+		case "mapcoll_strkey/single":
+			return map[any]any{int64(1): "x"}, nil
+		case "mapcoll_strkey/typed_collide":
+			return map[float64]any{1.0000001: "x", 1.0000002: "y"}, nil // both render as "1.000000"
 		}
 	case "oneof":
 		switch tok {
@@ -236,17 +252,21 @@ func (in *instance) argFor(op, tok string, m flat) (any, error) {
 		}
 	case "enum":
 		isInt := in.ckind == "enum_int"
+		mk := func(variant string) schema.Type {
+			if isInt {
+				return intEnum(variant)
+			}
+			return strEnum(variant)
+		}
 		switch tok {
 		case "same":
-			if isInt {
-				return schema.NewIntEnumSchema(map[int64]*schema.DisplayValue{1: disp("A"), 2: disp("B")}, nil), nil
-			}
-			return schema.NewStringEnumSchema(map[string]*schema.DisplayValue{"a": disp("A"), "b": disp("B")}), nil
-		case "extra":
-			if isInt {
-				return schema.NewIntEnumSchema(map[int64]*schema.DisplayValue{1: disp("A"), 3: disp("C")}, nil), nil
-			}
-			return schema.NewStringEnumSchema(map[string]*schema.DisplayValue{"a": disp("A"), "c": disp("C")}), nil
+			return mk(""), nil
+		case "extra", "renamed", "unnamed":
+			return mk(tok), nil
+		case "scope_same":
+			return wrap(mk("")), nil // the enum as a property type, scope compared with scope
+		case "scope_renamed":
+			return wrap(mk("renamed")), nil
 		case "member":
 			if isInt {
 				return int64(1), nil
@@ -418,7 +438,11 @@ func (in *instance) callWith(op, tok string, m flat, arg any, shared bool) (o ob
 			case "valid":
 				cerr, hasValue = in.target.Validate(arg), false
 			case "compat":
-				cerr, hasValue = in.target.ValidateCompatibility(arg), false
+				if strings.HasPrefix(tok, "scope_") {
+					cerr, hasValue = in.scope.ValidateCompatibility(arg), false
+				} else {
+					cerr, hasValue = in.target.ValidateCompatibility(arg), false
+				}
 			default:
 				cerr = fmt.Errorf("harness: unknown op %s", op)
 			}
@@ -437,6 +461,11 @@ func (in *instance) callWith(op, tok string, m flat, arg any, shared bool) (o ob
 		o.ErrKey, o.ErrPath = errKey(cerr)
 		if o.ErrPath <= 32 {
 			o.Err = cerr.Error()
+		}
+		if in.kind == "mapcoll" && strings.Contains(o.Err, "Duplicate key") {
+			// WHICH of two raw keys denoting one key is reported as the duplicate (the one met second) follows the
+			// iteration order of the input by nature: the rejection is compared, not the key it names
+			o.ErrKey = "duplicate key"
 		}
 		if in.kind == "disabled" && o.ErrPath >= 0 {
 			o.N = int64(o.ErrPath)
